@@ -734,6 +734,12 @@ def run(ctx):
         # one of the spreads is the popped options themselves (not the remaining configuration they were popped from)
         if any(is_flow_pop(x) and not from_cfg_setitem(x) for x in spreads):
             splat_flow = True
+        # ... and all of them: a comprehension over the saved options (a filter by constructor signature, by truthiness, ...) hands over a subset --
+        # options the flow wrapper takes through **kwargs (hidden_features, transforms, ...) have no name in any signature
+        filtered_ = [x for x in spreads if is_flow_pop(x) and x[0] == "f" and x[1] in ("dictcomp", "dict") and x[1] == "dictcomp"]
+        ctx.decide(not filtered_, "C13.config", bld.ident, loc_of(bld, e.node), "the saved flow options are handed over as saved (no selection among them)",
+                   "the saved flow options pass through a comprehension before they reach the rebuilt instance: whatever the selection keeps out (options the flow wrapper "
+                   "accepts through **kwargs have no name in its signature) is missing from the rebuilt flow, which then is not the flow that was saved", disc="flow_kwargs|filtered")
     ctx.decide("flow_kwargs" not in popped or splat_flow, "C13.config", bld.ident, loc_of(bld), "the saved flow options are re-splatted as keyword arguments of the rebuilt instance",
                "the saved flow options are removed from the configuration but never handed to the rebuilt instance", disc="flow_kwargs")
 
@@ -803,6 +809,9 @@ MUTANTS += [
 ]
 MUTANTS += [
     M("only a non-empty sequence of strings is written as a string array", "src/aspire/utils.py", "if all(isinstance(v, str) for v in value):", "if value and all(isinstance(v, str) for v in value):", "C13.codec"),
+]
+MUTANTS += [
+    M("only the saved flow options named in a signature are handed to the rebuilt instance", _A, "config_dict = {**flow_kwargs, **config_dict}", "flow_kwargs = {k: v for k, v in flow_kwargs.items() if k in signature(cls.__init__).parameters}\n        config_dict = {**flow_kwargs, **config_dict}", "C13.config"),
 ]
 NEUTRALS = [
     M("arrays with at least one axis written gzip-compressed", "src/aspire/utils.py", "g.create_dataset(full_key, data=encode_for_hdf5(value))",
